@@ -61,7 +61,46 @@ def gen_cases(tier, seed):
                 cid = "resp:%s-assn:%s-k%02d-%s" % (ri, ai, j, "on" if opt else "off")
                 cases.append({"id": cid, "sig": [ri + "/" + ai, j, "actual", "assertion", opt], "issuer": ri, "assertion_issuer": ai, "key": j,
                               "embed": "actual", "level": "assertion", "opt": opt})
+    # the same rule on the IdP side, with the order of key look-ups as part of the history: certificates an IdP fetched for ENCRYPTING to an SP
+    # must never come back as that SP's signing certificates
+    for k, order in enumerate((("request:enc-key", "encrypt", "request:enc-key", "request:sign-key"), ("encrypt", "request:enc-key", "request:sign-key"),
+                               ("request:sign-key", "encrypt", "request:enc-key", "request:third-key"), ("encrypt", "encrypt", "request:third-key", "request:enc-key"))):
+        cases.append({"id": "idp-side-history-%d" % k, "sig": ["idp-side-history", k], "kind": "idp-history", "order": list(order)})
     return cases
+
+
+def run_idp_history(case, ctx):
+    import base64
+    from saml2_tophat import BINDING_HTTP_POST
+    spmd = mdgen.entity({"eid": fed.SP_EID, "sp": {"keys": [("signing", 1), ("encryption", 2)], "acs": [(B_POST, fed.ACS_POST, 1, True)]}})
+    idp = fed.make_idp(fed.idp_conf(), [spmd])
+    sp = fed.make_sp(fed.sp_conf(), [fed.metadata_of(fed.idp_conf())])
+    viol, counters = [], {"history_steps": 0, "accepted": 0}
+    done = []
+    for step in case["order"]:
+        done.append(step)
+        counters["history_steps"] += 1
+        if step == "encrypt":
+            fed.issue(idp, {"givenName": ["Ann"]}, sign_response=False, encrypt_assertion=True)
+            continue
+        ki = {"request:sign-key": 1, "request:enc-key": 2, "request:third-key": 9}[step]
+        rid, req = sp.create_authn_request(fed.SSO_POST, binding=BINDING_HTTP_POST)
+        d = xk.Doc("%s" % req)
+        signed = xk.sign_element(d.text(), xk.SAMLP, "AuthnRequest", d.root.attrs["ID"], fed.key(ki)[0], "rsa-sha256", fed.cert_body(ki))
+        try:
+            r = idp.parse_authn_request(base64.b64encode(signed.encode()).decode(), BINDING_HTTP_POST)
+            ok = r is not None and getattr(r, "message", None) is not None
+        except Exception:
+            ok = False
+        counters["accepted"] += int(ok)
+        what = "IdP history %r: request with Issuer %s signed with k%02d (metadata: signing k01, encryption k02) %s" % (
+            done, fed.SP_EID, ki, "accepted" if ok else "refused")
+        if ok and ki != 1:
+            viol.append({"key": "C03/encryption-only-key-authenticated-issuer" if ki == 2 else "C03/accepted-under-key-not-held-for-issuer", "what": what})
+        if not ok and ki == 1:
+            viol.append({"key": "C03/valid-signature-under-issuers-metadata-key-rejected", "what": what})
+    return {"outcome": "violations" if viol else "history-held", "nontrivial": counters["accepted"] > 0 or counters["history_steps"] > 0, "violations": viol,
+            "counters": counters, "evals": counters["history_steps"]}
 
 
 def federation_md():
@@ -94,6 +133,8 @@ def _idp(ctx, name, spmd):
 
 def run_case(case, ctx):
     import saml2_tophat.sigver as sv
+    if case.get("kind") == "idp-history":
+        return run_idp_history(case, ctx)
     (sp, spmd) = _sp(ctx, case["opt"], case["level"])
     opt_on = bool(case["opt"])          # "default" counts as on
     idp = _idp(ctx, case["issuer"], spmd)
